@@ -1,45 +1,48 @@
 CHECK = dict(
     level="model_checking", engine="S",
     technique=("exhaustive enumeration of lattice polygon sets executed on the real triangulator (public Triangulate/TriangulateIdx and the "
-               "internal reusable PolygonTriangulator), judged by an exact integer-arithmetic oracle; crash, sanitizer report and watchdog "
-               "timeout are outcomes"),
+               "internal reusable PolygonTriangulator), judged by an exact integer-arithmetic oracle; crash, sanitizer report, exception and "
+               "watchdog timeout are outcomes"),
     level_text=("Every vertex sequence of length 3..6 (quick) / 3..7 (thorough) over the 16 points of a 4x4 integer lattice is handed to "
                 "TriangulateIdx.  An exact integer classifier decides which inputs are valid (strictly simple contours, straight vertices and "
-                "consecutive duplicate vertices allowed, boundaries pairwise disjoint, CCW at even and CW at odd nesting depth); only those are "
-                "judged against the full statement: count = V-2+2h-2(o-1), every triangle's exact orientation >= 0, exact area sum, every "
-                "input edge once in its direction, every other edge matched by its reverse, indices are input indices - under both allowConvex "
-                "settings, scales 1e-6 / 1 / 1e6 and epsilon -1 / 0 / 1e-9*scale (18 calls per valid input) plus Triangulate(Polygons) == "
-                "TriangulateIdx.  All other inputs (self-intersecting, clockwise, overlapping, degenerate, 0/1/2-vertex contours) are checked "
-                "for termination, absence of crashes/exceptions and index validity, also with an epsilon larger than the lattice step.  Further "
-                "phases: every (outer contour, hole) combination, outer contour x {two disjoint holes, hole with an island inside}, all ordered "
-                "pairs of CCW contours (o = 2), and the reuse differential of PolygonTriangulator over all ordered pairs of a pool of inputs."),
-    level_note=("Trusted: compiler, ASan/UBSan, the ~150-line exact integer classifier and oracle in harness/C10.cpp (coordinates are small "
+                "consecutive duplicate vertices allowed, boundaries pairwise disjoint or - one pair at most - touching in a single point, CCW at "
+                "even and CW at odd nesting depth); only those are judged against the full statement: count = V-2+2h-2(o-1), every triangle's "
+                "exact orientation >= 0, exact area sum, every input edge once in its direction, every other edge matched by its reverse, "
+                "indices are input indices - under both allowConvex settings, scales 1e-6 / 1 / 1e6 and epsilon -1 / 0 / 1e-9*scale (18 calls "
+                "per valid input) plus Triangulate(Polygons) == TriangulateIdx.  All other inputs (self-intersecting, clockwise, overlapping, "
+                "degenerate, 0/1/2-vertex contours) are checked for termination, absence of crashes/exceptions and index validity, also with "
+                "an epsilon larger than the lattice step.  Further phases: every (outer contour, hole) combination, outer contour x {two "
+                "holes, hole with an island inside}, all ordered pairs of CCW contours (o = 2), and the reuse differential of "
+                "PolygonTriangulator over all ordered pairs of a pool of inputs."),
+    level_note=("Trusted: compiler, ASan/UBSan, the ~200-line exact integer classifier and oracle in harness/C10.cpp (coordinates are small "
                 "integers; for epsilon = 0 the small scale is 2^-20 instead of 1e-6 so that the doubles the library sees are exactly the lattice "
                 "polygon). Bound: one contour <= 6 (7) vertices on the 4x4 lattice; holes = CW rings of 3..4 vertices on the half lattice "
-                "{1,1.5,2}^2; islands = CCW triangles on the quarter lattice {1.25,1.5,1.75}^2; nesting depth <= 2; contours that touch each "
-                "other or themselves at a point are not judged (termination only). With epsilon = 0 inputs containing a zero-length edge are "
-                "not judged (termination and index validity only)."),
-    runs=[S("seq-fast", quick=600, thorough=7200, workers=8, case_timeout=20),
-          S("seq-asan", quick=600, thorough=7200, workers=8, case_timeout=60, args=["--asan-subset"])],
-    rule=("phases: seq = all 16^n vertex sequences, n = 3..6 (7); hole1 = all (outer, hole[, order]) with outer a simple CCW ring over the 12 "
-          "boundary lattice points with <= 4 vertices (thorough: all 16 points, <= 5 vertices, both contour orders) and hole one of the 796 "
-          "simple CW rings with 3..4 vertices over {1,1.5,2}^2; holes2 = outer x {pair of disjoint holes | hole + island} restricted to valid "
-          "combinations; two = all ordered pairs of CCW triangles (thorough: + triangle x quad, quad x triangle) over the 16 lattice points; "
-          "tiny = contours with 0, 1, 2 vertices alone or beside a triangle / inside a square; reuse = all ordered pairs (P,Q) of a "
-          "400 (1200)-input pool x epsilon {-1, 0}: T.Triangulate(P); T.Triangulate(Q) vs a fresh PolygonTriangulator, vs the one-shot "
-          "TriangulateIdxHalfedges, vs the overload borrowing the used triangulator, and P again.  distinct = valid inputs up to cyclic "
-          "rotation of each contour; non-trivial = valid input that is not a single strictly convex contour (so ear clipping / key-holing "
-          "is exercised even with allowConvex).  The seq-asan run uses one size level less (quick: n <= 5, triangles as outer contours, the "
-          "square as holes2 outer, 3x3 sub-lattice for pairs; thorough: the quick bound)."),
+                "{1,1.5,2}^2; islands = CCW triangles on the quarter lattice {1.25,1.5,1.75}^2; nesting depth <= 2.  With epsilon = 0, inputs "
+                "containing a zero-length edge or a touching pair of contours are not judged (termination and index validity only); "
+                "self-touching contours, shared edges and multiple contacts are never judged."),
+    runs=[S("seq-fast", quick=600, thorough=5400, workers=8, case_timeout=20),
+          S("seq-asan", quick=600, thorough=5400, workers=8, case_timeout=60, args=["--asan-subset"])],
+    rule=("phases: seq = all 16^n vertex sequences, n = 3..6 (7); hole1 = all (outer, hole) with outer a simple CCW ring over the 12 "
+          "boundary lattice points with <= 4 vertices (thorough: all 16 points, <= 5 vertices) and hole one of the 796 simple CW rings with "
+          "3..4 vertices over {1,1.5,2}^2; holes2 = outer x {pair of holes | hole + island} restricted to valid combinations (thorough: "
+          "ordered pairs, both contour orders, holes touching in a point); two = all ordered pairs of CCW triangles (thorough: + triangle x "
+          "quad, quad x triangle) over the 16 lattice points; tiny = contours with 0, 1, 2 vertices alone or beside a triangle / inside a "
+          "square, one case per configuration; reuse = all ordered pairs (P,Q) of a 400 (1200)-input pool x epsilon {-1, 0}: "
+          "T.Triangulate(P); T.Triangulate(Q) vs a fresh PolygonTriangulator, vs the one-shot TriangulateIdxHalfedges, vs the overload "
+          "borrowing the used triangulator, and P again.  distinct = valid inputs up to cyclic rotation of each contour; non-trivial = "
+          "valid input that is not a single strictly convex contour (ear clipping / key-holing is exercised even with allowConvex).  The "
+          "seq-asan run (--asan-subset) runs seq and reuse one size level lower (quick: n <= 5, pool 200; thorough: the quick bound) and the "
+          "hole / pair phases at a small bound (triangles as outer contours, the square as holes2 outer, pairs over the 3x3 sub-lattice)."),
     bounds=dict(quick="seq n<=6 (17.9M sequences, 0.81M valid x 18 configurations); hole1 2576 outers x 796 holes; holes2 188 outers x 2846 inner "
                       "configurations; two 1548^2 pairs; tiny 424; reuse 400^2 pairs x 2 epsilon",
-                thorough="seq n<=7 (286M sequences); hole1 60728 outers x 796 holes x 2 orders; holes2 988 outers x up to 34512 inner "
-                         "configurations (9.9M valid sets); two 30.8M pairs; reuse 1200^2 pairs x 2 epsilon"),
+                thorough="seq n<=7 (286M sequences, 4.4M valid); hole1 60728 outers x 796 holes; holes2 1076 outers x up to 39120 inner "
+                         "configurations (11.4M valid sets); two 30.8M pairs; reuse 1200^2 pairs x 2 epsilon"),
     assumptions=COMMON_ASSUME + [
-        "an input is judged only if the exact integer classifier calls it valid: strictly simple, pairwise non-touching contours; "
-        "weakly simple / touching inputs (epsilon-valid only for epsilon > 0) are run for termination and index validity only",
+        "an input is judged only if the exact integer classifier calls it valid: strictly simple contours that are pairwise disjoint or (one "
+        "pair, epsilon != 0 only) touch in exactly one point; every other input is run for termination and index validity only",
         "'counter-clockwise within epsilon' is evaluated as exact lattice orientation >= 0: a clockwise lattice triangle has area >= 1/32 "
         "lattice cell, far above every epsilon used in a judged configuration",
         "'does not depend on the allowConvex fast path' is read as: both settings satisfy the whole statement (the two triangulations may differ)",
+        "an exception escaping Triangulate counts as a violation (no triangulation is returned)",
     ],
 )
